@@ -74,7 +74,7 @@ type collRule struct {
 }
 
 type collOp struct {
-	Op    string    `json:"op"`          // span | tick | eject | reload | alloc | stop
+	Op    string    `json:"op"`          // span | tick | ltick | eject | reload | alloc | stop
 	D     int64     `json:"d,omitempty"` // clock advance before the op (ns)
 	W     int       `json:"w,omitempty"` // worker (tick / eject), reduced mod worker count
 	Span  *collSpan `json:"span,omitempty"`
@@ -285,7 +285,8 @@ func collRun(in collInput) (*collResult, error) {
 			ShutdownDelay: config.Duration(time.Millisecond),
 		},
 	}
-	clock := &collClock{Clock: clockwork.NewFakeClockAt(time.Unix(0, in.T0))}
+	fake := clockwork.NewFakeClockAt(time.Unix(0, in.T0))
+	clock := &collClock{Clock: fake}
 	clock.now.Store(in.T0)
 	tx := &collTx{barrier: make(chan struct{}, 1)}
 	met := &collMetrics{}
@@ -414,7 +415,7 @@ func collRun(in collInput) (*collResult, error) {
 		o.Now = now
 		o.Fwd = tx.take()
 		o.Bufs = snapshot()
-		if o.Kind == "alloc" || o.Kind == "stop" {
+		if o.Kind == "alloc" || o.Kind == "stop" || o.Kind == "ltick" {
 			o.LeftW = map[int][]int{}
 			for w := 0; w < nw; w++ {
 				l := diff(prev[w], o.Bufs[w])
@@ -506,6 +507,28 @@ func collRun(in collInput) (*collResult, error) {
 			w := ((op.W % nw) + nw) % nw
 			coll.VerifC01SendExpired(w, time.Unix(0, now))
 			runErr = observe(collObs{Kind: "tick", W: w})
+		case "ltick":
+			// the REAL ticker branch of collect(): every worker is resumed, the fake clock behind the
+			// tickers is advanced by one SendTicker period (each ticker fires exactly once), and each
+			// worker runs sendExpiredTracesInCache(Clock.Now()) with Clock.Now() = this op's instant
+			if op.D <= 0 {
+				now++
+				clock.now.Store(now)
+			}
+			unpark()
+			fake.Advance(time.Duration(conf.GetTracesConfig().SendTicker))
+			for t0 := time.Now(); time.Since(t0) < 5*time.Second; {
+				done := true
+				for k := 0; k < nw; k++ {
+					done = done && coll.VerifC01HealthAt(k) == now
+				}
+				if done {
+					break
+				}
+				time.Sleep(20 * time.Microsecond)
+			}
+			park()
+			runErr = observe(collObs{Kind: "ltick"})
 		case "eject":
 			w := ((op.W % nw) + nw) % nw
 			coll.VerifC01SendEarly(w, int(op.Bytes))
@@ -740,7 +763,7 @@ func collCoq(r *collResult) string {
 			if op.Cfg == nil {
 				continue
 			}
-		case "tick", "eject", "alloc", "stop":
+		case "tick", "ltick", "eject", "alloc", "stop":
 		default:
 			continue
 		}
@@ -767,6 +790,12 @@ func collCoq(r *collResult) string {
 				ls = append(ls, collIntsN(o.LeftW[w]))
 			}
 			opc = fmt.Sprintf("(IAlloc %s %s %s)", cq.Z(int64(o.Alloc)), cq.Z(int64(o.Max)), cq.List(ls))
+		case "ltick":
+			var ls []string
+			for w := 0; w < nw; w++ {
+				ls = append(ls, collIntsN(o.LeftW[w]))
+			}
+			opc = fmt.Sprintf("(ITickAll %s)", cq.List(ls))
 		case "stop":
 			var ls []string
 			for w := 0; w < nw; w++ {
@@ -875,6 +904,13 @@ func collTags(r *collResult) []string {
 		}
 		if o.Kind == "tick" && len(o.Left) > 0 {
 			add("tick-decides")
+		}
+		if o.Kind == "ltick" {
+			for _, l := range o.LeftW {
+				if len(l) > 0 {
+					add("real-ticker-decides")
+				}
+			}
 		}
 		if o.Kind == "eject" && len(o.Left) > 0 {
 			add("eject-decides")
